@@ -115,18 +115,9 @@ class GenericContextProvider(RoleProvider):
                     # use "regular" way to update via transaction manager
                     self._logger.info('update %s, handle=%s', proposed_st.NODETYPE.localname, proposed_st.Handle)
                     # handle changed ContextAssociation
-                    if (
-                        old_state_container.ContextAssociation == pm_types.ContextAssociation.ASSOCIATED
-                        and proposed_st.ContextAssociation != pm_types.ContextAssociation.ASSOCIATED
-                    ):
-                        proposed_st.UnbindingMdibVersion = mgr.new_mdib_version
-                        proposed_st.BindingEndTime = time.time()
-                    elif (
-                        old_state_container.ContextAssociation != pm_types.ContextAssociation.ASSOCIATED
-                        and proposed_st.ContextAssociation == pm_types.ContextAssociation.ASSOCIATED
-                    ):
-                        proposed_st.BindingMdibVersion = mgr.new_mdib_version
-                        proposed_st.BindingStartTime = time.time()
+                    was_associated = old_state_container.ContextAssociation == pm_types.ContextAssociation.ASSOCIATED
+                    becomes_associated = proposed_st.ContextAssociation == pm_types.ContextAssociation.ASSOCIATED
+                    if becomes_associated and not was_associated:
                         handles = self._mdib.xtra.disassociate_all(
                             entity,
                             unbinding_mdib_version=mgr.new_mdib_version,
@@ -144,6 +135,16 @@ class GenericContextProvider(RoleProvider):
                             'StateVersion',
                         ],
                     )
+                    # binding data is maintained by the provider: write it to the state that is stored,
+                    # not to the proposed state (its binding members are not copied).
+                    if was_associated and not becomes_associated:
+                        old_state_container.UnbindingMdibVersion = mgr.new_mdib_version
+                        old_state_container.BindingEndTime = time.time()
+                    elif becomes_associated and not was_associated:
+                        old_state_container.BindingMdibVersion = mgr.new_mdib_version
+                        old_state_container.BindingStartTime = time.time()
+                        old_state_container.UnbindingMdibVersion = None
+                        old_state_container.BindingEndTime = None
                 modified_state_handles[entity.handle].append(proposed_st.Handle)
                 operation_target_handles.append(proposed_st.Handle)
 
